@@ -177,7 +177,13 @@ func (c *mtastsDelivery) CheckMX(ctx context.Context, mxLevel module.MXLevel, do
 		c.log.DebugMsg("MTA-STS error", "err", err)
 		return module.MXNone, nil
 	}
-	policy := policyI.(*mtasts.Policy)
+	policy, _ := policyI.(*mtasts.Policy)
+	if policy == nil {
+		// The cache can return neither a policy nor an error (when it
+		// fetched a policy but failed to store it and had nothing cached).
+		c.log.DebugMsg("MTA-STS error", "err", "no policy and no error")
+		return module.MXNone, nil
+	}
 
 	// Policy.Match locates the first label of mx in the raw string but compares
 	// the normalized one; hand it a name for which both are the same (U-labels,
@@ -207,7 +213,10 @@ func (c *mtastsDelivery) CheckConn(ctx context.Context, mxLevel module.MXLevel, 
 		c.c.log.DebugMsg("MTA-STS error", "err", err)
 		return module.TLSNone, nil
 	}
-	policy := policyI.(*mtasts.Policy)
+	policy, _ := policyI.(*mtasts.Policy)
+	if policy == nil {
+		return module.TLSNone, nil
+	}
 
 	if policy.Mode != mtasts.ModeEnforce {
 		return module.TLSNone, nil
